@@ -137,6 +137,16 @@ def checked_add_exact(ty):
     return f
 
 
+def nonzero_new(eng, st, fr, args, fn, site):
+    """NonZero::<T>::new(x): Some(x) unless x == 0 (the wrapper is transparent: NonZero::get is the identity)"""
+    x = args[0]
+    if is_int_const(x):
+        return ('agg', 'std::option::Option', 'Some', (x,)) if x[1] != 0 else ('agg', 'std::option::Option', 'None', ())
+    z = T('Eq', x, C(0, 'u16'))
+    return [(('agg', 'std::option::Option', 'Some', (x,)), [(z, '==', 0)]),
+            (('agg', 'std::option::Option', 'None', ()), [(z, '==', 1)])]
+
+
 INT_RANGE_EARLY = {'u8': (0, 2**8 - 1), 'u16': (0, 2**16 - 1), 'u32': (0, 2**32 - 1), 'u64': (0, 2**64 - 1), 'usize': (0, 2**64 - 1)}
 
 
@@ -428,6 +438,61 @@ def array_iter_next(eng, st, fr, args, fn, site):
         eng.write(st, d[1], T('arr_iter', arr, C(i + 1, 'usize')))
         return ('agg', OPT, 'Some', (arr[3][i],))
     return ('agg', OPT, 'None', ())
+
+
+def iter_find(eng, st, fr, args, fn, site):
+    """Iterator::find(&mut it, pred) over an array iterator whose elements are known: the predicate is applied to the
+    elements in order; the result is the first element it accepts (alternatives when it cannot be decided)"""
+    d = ptr_term(args[0])
+    it = eng.load(st, d[1]) if d[0] == 'ref' else args[0]
+    if not (it[0] == 't' and it[1] == 'arr_iter' and is_int_const(it[2][1])):
+        return None
+    arr, i0 = it[2][0], it[2][1][1]
+    elems = list(arr[3][i0:])
+    if len(elems) > 16:
+        return None
+    out = []
+    failed = []
+
+    def rec(k, st_k, conds):
+        if failed:
+            return
+        if k == len(elems):
+            if d[0] == 'ref':
+                eng.write(st_k, d[1], T('arr_iter', arr, C(len(arr[3]), 'usize')))
+            out.append((('agg', OPT, 'None', ()), conds, list(st_k.effects), dict(st_k.store)))
+            return
+        h = ('H', 300000 + st_k.next_heap)
+        st_k.next_heap += 1
+        st_k.store[(h, ())] = elems[k]
+        alts = eng.apply_fn(st_k, fr, args[1], [('ref', ((h, ()), ()))] if False else [('ref', (h, ()))])
+        if alts is None:
+            failed.append(k)
+            return
+        for a_ in alts:
+            v, c2 = a_[0], list(a_[1])
+            st_n = st_k.copy()
+            if len(a_) > 2 and a_[2] is not None:
+                st_n.effects = list(a_[2])
+            if len(a_) > 3 and a_[3] is not None:
+                st_n.store = dict(a_[3])
+            if is_int_const(v):
+                if v[1]:
+                    if d[0] == 'ref':
+                        eng.write(st_n, d[1], T('arr_iter', arr, C(i0 + k + 1, 'usize')))
+                    out.append((('agg', OPT, 'Some', (elems[k],)), conds + c2, list(st_n.effects), dict(st_n.store)))
+                else:
+                    rec(k + 1, st_n, conds + c2)
+            else:
+                st_y = st_n.copy()
+                if d[0] == 'ref':
+                    eng.write(st_y, d[1], T('arr_iter', arr, C(i0 + k + 1, 'usize')))
+                out.append((('agg', OPT, 'Some', (elems[k],)), conds + c2 + [(v, '==', 1)], list(st_y.effects), dict(st_y.store)))
+                rec(k + 1, st_n, conds + c2 + [(v, '==', 0)])
+    rec(0, st.copy(), [])
+    if failed:
+        return None
+    return out
 
 
 def nonnull_as_ref(eng, st, fr, args, fn, site):
@@ -818,6 +883,11 @@ SUMMARIES = {
     '<byteorder::BigEndian as byteorder::ByteOrder>::write_u64': byteorder_write(8, native=False),
     '<byteorder::BigEndian as byteorder::ByteOrder>::write_i32': byteorder_write(4, native=False),
     '<byteorder::BigEndian as byteorder::ByteOrder>::write_i64': byteorder_write(8, native=False),
+    'std::num::nonzero::NonZero::<T>::new': nonzero_new,
+    'std::num::NonZero::<T>::new': nonzero_new,
+    'std::num::nonzero::NonZero::<T>::get': lambda e, s_, f, a, fn, site: a[0],
+    'std::num::NonZero::<T>::get': lambda e, s_, f, a, fn, site: a[0],
+    'std::iter::Iterator::find': iter_find,
     'std::mem::size_of_val': size_of_val,
     'nix::sys::time::TimeSpec::from_timespec': ts_from,
     'nix::sys::time::TimeSpec::from_duration': lambda e, s, f, a, fn, site: T('ts_from_duration', a[0]),
